@@ -15,21 +15,33 @@ Ltac rcode := unfold rep_code;
 
 Section Conv.
 Variables (INF : R) (m1 : R -> R -> R) (fv : bool).
-Notation canon := (fun a r => canonical_drift INF m1 fv a (rep_code r)).
+
+(* the ZERO representation only exists for jumps of finite variation: the code raises ValueError otherwise
+   (modelled as the value 0), so every statement carries this guard on the representations involved *)
+Definition valid_rep (r : Rep) : Prop := fv = true \/ r <> ZERO.
 
 (* the generated conversions compute what they are documented to compute *)
-Lemma canonical_drift_spec a r : canonical_drift INF m1 fv a (rep_code r) = to_canonical INF m1 fv r a.
+Lemma canonical_drift_spec a r : valid_rep r -> canonical_drift INF m1 fv a (rep_code r) = to_canonical INF m1 fv r a.
 Proof.
-  unfold canonical_drift, to_canonical, I11, Tails. destruct r; rcode; cbv zeta; try reflexivity.
-  destruct fv; ring.
+  intros Hv. unfold canonical_drift, to_canonical, I11, Tails. destruct r; rcode; cbv zeta; try reflexivity.
+  - destruct Hv as [-> | Hv]; [cbn; reflexivity | contradiction].
+  - destruct fv; ring.
 Qed.
 
-Lemma drift_in_spec r' t : drift_in INF m1 fv r' t = of_canonical INF m1 fv r' (to_canonical INF m1 fv (t_rep t) (t_a t)).
+Lemma drift_in_spec r' t : valid_rep r' -> valid_rep (t_rep t) ->
+  drift_in INF m1 fv r' t = of_canonical INF m1 fv r' (to_canonical INF m1 fv (t_rep t) (t_a t)).
 Proof.
-  unfold drift_in, zero_drift, center_drift, tilde_drift. destruct r'; cbv zeta; rewrite ?canonical_drift_spec;
+  intros Hv' Hv.
+  unfold drift_in, zero_drift, center_drift, tilde_drift. destruct r'; cbv zeta; rewrite ?canonical_drift_spec by assumption;
     unfold of_canonical, I11, Tails; try reflexivity; try ring.
-  destruct fv; ring.
+  - destruct Hv' as [-> | Hv']; [cbn; ring | contradiction].
+  - destruct fv; ring.
 Qed.
+
+(* infinite variation: asking for (or starting from) the ZERO representation is the modelled ValueError *)
+Lemma zero_needs_finite_variation a r : fv = false ->
+  zero_drift INF m1 fv a (rep_code r) = 0 /\ canonical_drift INF m1 fv a (rep_code ZERO) = 0.
+Proof. intros ->. split; [unfold zero_drift; reflexivity | unfold canonical_drift; rcode; reflexivity]. Qed.
 
 Lemma of_to_canonical r a : of_canonical INF m1 fv r (to_canonical INF m1 fv r a) = a.
 Proof. unfold of_canonical, to_canonical. destruct r; try destruct fv; ring. Qed.
@@ -42,63 +54,80 @@ Lemma rep_eqb_true r r' : rep_eqb r r' = true <-> r = r'.
 Proof. destruct r, r'; simpl; split; intros H; try reflexivity; try discriminate. Qed.
 
 (* a conversion never changes the canonical drift, and lands in the requested representation *)
-Lemma set_representation_canonical r t : canonical_of (set_representation INF m1 fv r t) = canonical_of t.
+Lemma set_representation_canonical r t : valid_rep r -> valid_rep (t_rep t) ->
+  canonical_of (set_representation INF m1 fv r t) = canonical_of t.
 Proof.
-  unfold set_representation. destruct (rep_eqb r (t_rep t)) eqn:E; [reflexivity|].
-  unfold canonical_of. simpl. rewrite drift_in_spec. apply to_of_canonical.
+  intros Hr Ht. unfold set_representation. destruct (rep_eqb r (t_rep t)) eqn:E; [reflexivity|].
+  unfold canonical_of. simpl. rewrite drift_in_spec by assumption. apply to_of_canonical.
 Qed.
 Lemma set_representation_rep r t : t_rep (set_representation INF m1 fv r t) = r.
 Proof.
   unfold set_representation. destruct (rep_eqb r (t_rep t)) eqn:E; [|reflexivity].
   apply rep_eqb_true in E. symmetry. exact E.
 Qed.
-Lemma set_representation_a r t :
+Lemma set_representation_a r t : valid_rep r -> valid_rep (t_rep t) ->
   t_a (set_representation INF m1 fv r t) = of_canonical INF m1 fv r (canonical_of t).
 Proof.
-  unfold set_representation. destruct (rep_eqb r (t_rep t)) eqn:E.
+  intros Hr Ht. unfold set_representation. destruct (rep_eqb r (t_rep t)) eqn:E.
   - apply rep_eqb_true in E. subst r. unfold canonical_of. symmetry. apply of_to_canonical.
-  - simpl. apply drift_in_spec.
+  - simpl. apply drift_in_spec; assumption.
 Qed.
 
 Lemma triplet_ext t t' : t_a t = t_a t' -> t_rep t = t_rep t' -> t = t'.
 Proof. destruct t, t'; simpl; intros -> ->; reflexivity. Qed.
 
-(* any sequence of representation changes followed by r gives what the direct change to r gives *)
-Lemma set_representations_canonical rs t : canonical_of (set_representations INF m1 fv rs t) = canonical_of t.
+(* any sequence of (admissible) representation changes followed by r gives what the direct change to r gives *)
+Lemma set_representations_canonical rs t : valid_rep (t_rep t) -> Forall valid_rep rs ->
+  canonical_of (set_representations INF m1 fv rs t) = canonical_of t /\ valid_rep (t_rep (set_representations INF m1 fv rs t)).
 Proof.
-  revert t. induction rs as [|r rs IH]; intros t; simpl; [reflexivity|].
-  rewrite IH. apply set_representation_canonical.
+  revert t. induction rs as [|r rs IH]; intros t Ht Hrs; simpl; [split; [reflexivity | assumption]|].
+  inversion Hrs as [|? ? Hr Hrs']; subst.
+  destruct (IH (set_representation INF m1 fv r t)) as [E V]; [rewrite set_representation_rep; assumption | assumption |].
+  split; [|exact V]. rewrite E. apply set_representation_canonical; assumption.
 Qed.
 
-Theorem conversions_path_independent rs r t :
+Theorem conversions_path_independent rs r t : valid_rep (t_rep t) -> Forall valid_rep rs -> valid_rep r ->
   set_representation INF m1 fv r (set_representations INF m1 fv rs t) = set_representation INF m1 fv r t.
 Proof.
+  intros Ht Hrs Hr. destruct (set_representations_canonical rs t Ht Hrs) as [E V].
   apply triplet_ext.
-  - rewrite !set_representation_a. rewrite set_representations_canonical. reflexivity.
+  - rewrite !set_representation_a by assumption. rewrite E. reflexivity.
   - rewrite !set_representation_rep. reflexivity.
 Qed.
 
-Theorem conversions_path_independent_3 r1 r2 r3 t :
+Theorem conversions_path_independent_3 r1 r2 r3 t : valid_rep (t_rep t) -> valid_rep r1 -> valid_rep r2 -> valid_rep r3 ->
   set_representation INF m1 fv r3 (set_representation INF m1 fv r2 (set_representation INF m1 fv r1 t))
   = set_representation INF m1 fv r3 t.
-Proof. exact (conversions_path_independent [r1; r2] r3 t). Qed.
+Proof. intros Ht H1 H2 H3. apply (conversions_path_independent [r1; r2] r3 t); auto. Qed.
 
 (* reversible: coming back to the original representation restores the triplet (drift included) *)
-Theorem conversions_reversible rs t :
+Theorem conversions_reversible rs t : valid_rep (t_rep t) -> Forall valid_rep rs ->
   set_representation INF m1 fv (t_rep t) (set_representations INF m1 fv rs t) = t.
 Proof.
-  rewrite conversions_path_independent. unfold set_representation.
+  intros Ht Hrs. rewrite conversions_path_independent by assumption. unfold set_representation.
   replace (rep_eqb (t_rep t) (t_rep t)) with true; [reflexivity|].
   symmetry. apply rep_eqb_true. reflexivity.
 Qed.
 End Conv.
 
 (* assembled statements for Properties/C10.v *)
-Theorem set_representation_meaning INF m1 fv r t :
+Theorem set_representation_meaning INF m1 fv r t : valid_rep fv r -> valid_rep fv (t_rep t) ->
   t_rep (set_representation INF m1 fv r t) = r /\
   t_a (set_representation INF m1 fv r t) = of_canonical INF m1 fv r (to_canonical INF m1 fv (t_rep t) (t_a t)).
-Proof. split; [apply set_representation_rep | apply set_representation_a]. Qed.
+Proof. intros. split; [apply set_representation_rep | apply set_representation_a; assumption]. Qed.
 Example conversions_example INF m1 :
   t_a (set_representation INF m1 true CENTER (set_representation INF m1 true ONEONE (mkTriplet 5 ZERO)))
   = 5 + m1 (-1) 1 + (m1 (- INF) (-1) + m1 1 INF).
-Proof. rewrite set_representation_a, set_representation_canonical. unfold canonical_of, to_canonical, of_canonical, I11, Tails. simpl. ring. Qed.
+Proof.
+  assert (V : forall r, valid_rep true r) by (intros; left; reflexivity).
+  rewrite set_representation_a, set_representation_canonical by apply V.
+  unfold canonical_of, to_canonical, of_canonical, I11, Tails. simpl. ring.
+Qed.
+(* non-vacuity of the guard: without it the statement is false in the model (infinite variation, through ZERO) *)
+Example conversions_need_guard : exists INF m1 t,
+  set_representation INF m1 false CENTER (set_representation INF m1 false ZERO t) <> set_representation INF m1 false CENTER t.
+Proof.
+  exists 0, (fun _ _ => 1), (mkTriplet 5 ONEONE). unfold set_representation. cbn [t_rep rep_eqb t_a drift_in].
+  intros E. apply (f_equal t_a) in E. cbn [t_a] in E.
+  unfold center_drift, zero_drift, canonical_drift in E. cbn [negb] in E. revert E. rcode. cbv zeta. rcode. lra.
+Qed.
